@@ -5,6 +5,7 @@
 package kvx
 
 import (
+	"sync/atomic"
 	"context"
 	"fmt"
 	"sort"
@@ -22,6 +23,7 @@ import (
 	"github.com/synnaxlabs/x/change"
 	"github.com/synnaxlabs/x/errors"
 	xkv "github.com/synnaxlabs/x/kv"
+	"github.com/synnaxlabs/x/kv/memkv"
 	"github.com/synnaxlabs/x/query"
 	"github.com/synnaxlabs/x/version"
 	"verifkit/vk"
@@ -114,6 +116,8 @@ type Sys struct {
 	obsNoHos *observer
 	obsLate  *observer
 	locals   int
+	faults   int
+	eng      *failEngine
 	Prop     string // "C06" or "C13": which class of violations is reported
 }
 
@@ -127,17 +131,18 @@ func New(S []Op, prop string) (s *Sys, err error) {
 		kv.Config{RecoveryThreshold: 5, GossipInterval: time.Hour},
 		cluster.Config{Gossip: gossip.Config{Interval: 20 * time.Millisecond}, Pledge: pledge.Config{RetryInterval: 5 * time.Millisecond}},
 	)
-	db1, err := b.New(ctx, kv.Config{}, cluster.Config{})
+	eng := &failEngine{DB: memkv.New()}
+	db1, err := b.New(ctx, kv.Config{Engine: eng}, cluster.Config{})
 	if err != nil {
 		return nil, err
 	}
 	if _, err = b.New(ctx, kv.Config{}, cluster.Config{}); err != nil {
 		return nil, err
 	}
-	s = &Sys{S: S, builder: b, db: db1, model: map[string]stored{}, used: make([]int, len(S)), Prop: prop}
+	s = &Sys{S: S, builder: b, db: db1, model: map[string]stored{}, used: make([]int, len(S)), Prop: prop, eng: eng}
 	host := b.ClusterAPIs[1].Host()
 	s.addr = string(host.Address)
-	s.engine = db1.DB
+	s.engine = eng
 	s.obsAll = &observer{ch: make(chan struct{}, 1)}
 	s.obsNoHos = &observer{ch: make(chan struct{}, 1)}
 	db1.OnChange(s.obsAll.handle)
@@ -145,7 +150,32 @@ func New(S []Op, prop string) (s *Sys, err error) {
 	return s, nil
 }
 
-func (s *Sys) Close() { _ = s.builder.Close() }
+func (s *Sys) Close() {
+	_ = s.builder.Close()
+	_ = s.eng.DB.Close()
+}
+
+// failEngine is the node's storage engine with one injectable fault: the next transaction
+// commit is refused. A gossip delivery whose storing transaction fails must leave the store
+// and every subscriber exactly as if it had not arrived.
+type failEngine struct {
+	xkv.DB
+	armed atomic.Bool
+}
+
+type failTx struct {
+	xkv.Tx
+	e *failEngine
+}
+
+func (e *failEngine) OpenTx() xkv.Tx { return &failTx{Tx: e.DB.OpenTx(), e: e} }
+
+func (t *failTx) Commit(ctx context.Context, opts ...any) error {
+	if t.e.armed.CompareAndSwap(true, false) {
+		return errors.New("injected: storage refused the commit")
+	}
+	return t.Tx.Commit(ctx, opts...)
+}
 
 func (s *Sys) Ops() []string {
 	var ops []string
@@ -158,6 +188,13 @@ func (s *Sys) Ops() []string {
 		for j := range s.S {
 			if i != j && s.used[i] < 2 && s.used[j] < 2 {
 				ops = append(ops, fmt.Sprintf("d %d %d", i, j))
+			}
+		}
+	}
+	if s.faults < 1 {
+		for i := range s.S {
+			if s.used[i] < 2 {
+				ops = append(ops, fmt.Sprintf("df %d", i))
 			}
 		}
 	}
@@ -285,6 +322,24 @@ func (s *Sys) Apply(op string) (string, error) {
 		}
 		if _, err := s.builder.OpNet.UnaryClient().Send(ctx, addrOf(s.addr), kv.TxRequest{Sender: 2, Operations: batch}); err != nil {
 			return "", fmt.Errorf("deliver: %v", err)
+		}
+	case "df":
+		// a delivery whose storing transaction is refused by the engine: nothing is stored,
+		// nobody is notified; the same operation delivered again later is a first delivery
+		var i int
+		fmt.Sscan(f[1], &i)
+		s.used[i]++
+		s.faults++
+		s.eng.armed.Store(true)
+		if _, err := s.builder.OpNet.UnaryClient().Send(ctx, addrOf(s.addr), kv.TxRequest{Sender: 2, Operations: []kv.Operation{s.S[i].real()}}); err != nil {
+			return "", fmt.Errorf("deliver: %v", err)
+		}
+		// wait until the pipeline has consumed the fault
+		for n := 0; s.eng.armed.Load(); n++ {
+			if n > 60000 {
+				return "", fmt.Errorf("the refused commit was never attempted")
+			}
+			time.Sleep(time.Millisecond)
 		}
 	case "loc":
 		hostLed = true
